@@ -132,6 +132,11 @@ def records_from_tissue(rng, at, k=(0, 5), id_gaps=True, density="all", orphans=
     flab = {c: i + 1 for i, c in enumerate(cids)}
     if id_gaps:
         fl = sorted(int(x) for x in rng.choice(np.arange(1, 2 * len(cids) + 5), size=len(cids), replace=False))
+        if len(fl) > 1 and fl[0] % 5 < 2:
+            # faces (and their bodies, in the same order) need not be written in ascending id order; decided from the ids
+            # already drawn so that the random stream of the callers does not change
+            pr = np.random.default_rng([fl[0], len(fl), 14]).permutation(len(fl))
+            fl = [fl[i] for i in pr]
         flab = {c: fl[i] for i, c in enumerate(cids)}
     cyc_v = {}
     for c in cids:
